@@ -46,7 +46,8 @@ KEYS_ORACLE = {
     "ExactQubits": (["filter|retain", "==|eq"], ["any", "is_disjoint"]),
     "Specific": (["get_key_value|get"], []),
     "And": (["reduce|fold|intersection|retain", "contains|intersection|retain"], ["flat_map", "union"]),
-    "Or": (["flat_map|union|extend"], ["reduce", "intersection", "retain"]),
+    # a union must evaluate every alternative: an early exit once the accumulated set is empty is an intersection shortcut
+    "Or": (["flat_map|union|extend"], ["reduce", "intersection", "retain", "<early-exit>"]),
 }
 
 
@@ -147,6 +148,43 @@ def run(ctx):
         covered |= k2.arm_variants(arm, INSTRUCTION)[0]
     if covered != allv:
         res.find("K8|frame-conditions|uncovered", dfm.loc(), "variants %s are not named in default_frame_match_condition" % sorted(allv - covered))
+    # per-variant blocking dependence: every construction of the conditions for PULSE / CAPTURE / RAW-CAPTURE takes its
+    # `blocked` side from that instruction's own `blocking` flag
+    iadt = db.adts[INSTRUCTION]
+    vname = {v["i"]: v["n"] for v in iadt["variants"]}
+    nblk = 0
+    for bb, s_ in aggregates(dfm, FMCS):
+        sel = set()
+        for sb, tgt in dfm.control_deps(bb):
+            tt = dfm.blocks[sb]["t"]
+            if tt["k"] == "switch":
+                de = fn_expr_operand(dfm, tt["d"])
+                if de[0] == "discr" and de[1][0] == "param" and de[1][1] == 1:
+                    for v_, x in tt["ts"]:
+                        if x == tgt:
+                            sel.add(vname.get(int(v_)))
+        sel &= {"Pulse", "Capture", "RawCapture"}
+        if not sel:
+            continue
+        nblk += 1
+        ops = dict(zip(s_["rv"]["a"]["fields"], s_["rv"]["ops"]))
+        e = fn_expr_operand(dfm, ops["blocked"])
+        names = []
+        walk_expr(e, lambda n: names.append(n[2]) if n[0] == "field" else None)
+        dep = "blocking" in names
+        if not dep:
+            for sb, tgt in dfm.control_deps(bb, transitive=False):
+                tt = dfm.blocks[sb]["t"]
+                if tt["k"] == "switch":
+                    nm = []
+                    walk_expr(fn_expr_operand(dfm, tt["d"]), lambda n: nm.append(n[2]) if n[0] == "field" else None)
+                    dep = dep or "blocking" in nm
+        for v_ in sorted(sel):
+            key = "K5|blocked-iff-blocking|%s" % v_
+            res.site(key, True, {"verdict": "ok" if dep else "VIOLATION"})
+            if not dep:
+                res.find(key, dfm.loc(s_["sp"]), "the blocked frames of Instruction::%s do not depend on its `blocking` flag" % v_, "NONBLOCKING %s blocks every other frame on its qubits" % {"Pulse": "PULSE", "Capture": "CAPTURE", "RawCapture": "RAW-CAPTURE"}[v_])
+    res.count("blocking_instruction_condition_sites", nblk, floor=1)
     # blocking dependence: blocked of PULSE/CAPTURE/RAW-CAPTURE must depend on `blocking`
     key = "K5|blocked-iff-blocking"
     ok = False
@@ -190,6 +228,16 @@ def run(ctx):
             body = arm["body"]
             meths = {c["m"] for c in find_all(body, lambda n: n.get("k") == "mcall")}
             ops = {b["op"] for b in find_all(body, lambda n: n.get("k") == "bin")}
+            # local helper methods called on self are part of the evaluation (one level)
+            for c in find_all(body, lambda n: n.get("k") == "mcall" and n["recv"].get("k") == "path" and n["recv"].get("p") == "self"):
+                for hf in syn.by_name.get(c["m"], []):
+                    if hf["file"] == sf["file"] and hf["name"] != sf["name"]:
+                        meths |= {x["m"] for x in find_all(hf["body"], lambda n: n.get("k") == "mcall")}
+                        ops |= {b["op"] for b in find_all(hf["body"], lambda n: n.get("k") == "bin")}
+                        if find_all(hf["body"], lambda n: n.get("k") in ("break", "return", "continue")):
+                            meths.add("<early-exit>")
+            if find_all(body, lambda n: n.get("k") in ("break", "continue")):
+                meths.add("<early-exit>")
             have = meths | ops
             need, forbid = KEYS_ORACLE[name]
             ok = all(any(alt in have for alt in n_.split("|")) for n_ in need) and not any(x in have for x in forbid)
